@@ -48,7 +48,7 @@ def gen_cases(rng, tier):
                 cases.append({'text': '', 'strict': True, 'kind': 'sweep-unreachable', 'focus': ty, 'why': str(e)[:100]})
                 continue
             cases.append({'text': text, 'strict': True, 'kind': 'sweep', 'focus': ty, 'version': list(version)})
-    per_kind = 12 if tier == 'quick' else 250
+    per_kind = 12 if tier == 'quick' else 600
     for kind in EXPECT:
         for j in range(per_kind):
             try:
@@ -59,7 +59,7 @@ def gen_cases(rng, tier):
             i = len(cases)
             cases.append({'text': dev.text, 'strict': True, 'kind': 'dev', 'dev': kind, 'tag': dev.desc.get('tag'), 'pair': i + 1})
             cases.append({'text': dev.text, 'strict': False, 'kind': 'dev-lenient', 'dev': kind, 'tag': dev.desc.get('tag'), 'pair': i})
-    n = 60 if tier == 'quick' else 3000
+    n = 60 if tier == 'quick' else 8000
     for i in range(n):
         node, text, toks = docs.random_doc(rng, size=rng.choice(['small', 'medium']))
         cases.append({'text': text, 'strict': True, 'kind': 'random'})
